@@ -4,6 +4,7 @@ CONSTANTS
   MaxRoot = 1
   MaxMid = 0
   RootTargets = {"a"}
+  MidTargets = {"a"}
   Spellings = {"plain"}
   CfgPool = "basic"
   ListPool = "basic"
